@@ -360,3 +360,7 @@ def run(ctx):
     r4(ctx)
     r6(ctx)
     r8(ctx)
+    import rules.C14 as c14
+    ctx.borrow(c14.run, {'C14.R3': 'C01.R10', 'C14.R4': 'C01.R11'},
+               'with an enhanced adapter every received symbol passes the frame decoder first; a symbol it drops, '
+               'duplicates or reorders changes the telegram that is reported')
